@@ -394,6 +394,10 @@ class ScoredCollector(Collector):
             # matcher with a more efficient version
             if replace:
                 if replacecounter == 0 or self.minscore != minscore:
+                    # Only prune against the minimum score if the matcher can
+                    # give quality estimates (some scorers can't)
+                    if not usequality:
+                        minscore = None
                     self.matcher = matcher = matcher.replace(minscore or 0)
                     if minscore:
                         # The replacement may have dropped matching documents
